@@ -48,6 +48,12 @@ func watchdogExpired(t *Trace) bool {
 // re-execution is skipped (the violation is established, and each confirmation costs the long limit).
 var confirmedHangs atomic.Int64
 
+// wdFired counts the wall-clock limits of the server harness that have expired (whatever the
+// case then wrote into its trace about it): a finding of a case during which one expired is
+// executed again under the long limits before it is believed — a loaded machine makes a limit
+// expire without anything being wrong.
+var wdFired atomic.Int64
+
 // ---- evidence of a deadlock ----
 //
 // A deadlock that needs an interleaving does not show again when the case is executed alone, so the
